@@ -591,6 +591,50 @@ fn main() {
             }
         }
     }
+    // ---------------- implementation-only stream: one very large record ----------------
+    // The writer and replay accept any payload up to u32::MAX; so must the tail repair done by
+    // open.  One ~17 MiB entry (incompressible block signature), a small entry and a term change
+    // after it; restart; everything must be back.  Judged on the implementation's observations
+    // only (no byte-level model comparison for 17 MiB).
+    {
+        let dir = args.out.join("scratch");
+        fs::create_dir_all(&dir).unwrap();
+        let wal = dir.join("large.wal");
+        let _ = fs::remove_file(&wal);
+        let mut big = block(900);
+        let mut r2 = rng.fork();
+        big.header.signature = (0..17 * 1024 * 1024 / 8).flat_map(|_| r2.next().to_le_bytes()).collect();
+        let t0 = std::time::Instant::now();
+        if let Ok(node) = open_node(&wal) {
+            node.start_election();
+            node.become_leader();
+            node.quorum_tracker().mark_reachable(&nid(1));
+            node.quorum_tracker().mark_reachable(&nid(2));
+            let p1 = node.propose(big).is_ok();
+            let p2 = node.propose(block(901)).is_ok();
+            node.start_election();
+            let before = (node.current_term(), node.verif_voted_for().map(|x| nid_of(&x)), node.verif_log_image());
+            drop(node);
+            let size = fs::metadata(&wal).map(|m| m.len()).unwrap_or(0);
+            cx.dist.hit("large_record.probe");
+            let after = open_node(&wal).ok().map(|n2| (n2.current_term(), n2.verif_voted_for().map(|x| nid_of(&x)), n2.verif_log_image()));
+            if p1 && p2 && after.as_ref() != Some(&before) {
+                hits.push(
+                    "large-record",
+                    &format!(
+                        "start_election; become_leader; propose(block with a {} byte signature) -> Ok; propose(small) -> Ok; start_election; restart from the {} byte log: before the restart (term, vote, log) = {:?}, after = {}",
+                        17 * 1024 * 1024, size, before,
+                        after.as_ref().map_or("node cannot restart".to_string(), |a| format!("{a:?}"))
+                    ),
+                    json!({"steps": "Elect; BecomeLeader; Propose(17 MiB block); Propose(small); Elect; restart", "log_bytes": size}),
+                );
+            }
+        }
+        if std::env::var("NVH_TIMING").is_ok() {
+            eprintln!("large record probe: {:?}", t0.elapsed());
+        }
+        let _ = fs::remove_file(&wal);
+    }
     let _ = fs::remove_dir_all(args.out.join("scratch"));
     write_meta(
         &args.out,
